@@ -170,84 +170,84 @@ func lineCommentEvidence(info *types.Info, fd *ast.FuncDecl, cl *ast.CompositeLi
 		}
 		return true
 	}
-			sel, ok := core.Unparen(val).(*ast.SelectorExpr)
-			var tokObj types.Object
-			if ok && sel.Sel.Name == "Lit" {
-				if id, ok := core.Unparen(sel.X).(*ast.Ident); ok {
-					tokObj = info.ObjectOf(id)
-				}
-			}
-			if tokObj == nil {
-				return "", "the text is not the Lit of a token variable: its kind cannot be established"
-			}
-			isTokType := func(e ast.Expr) bool {
-				s, ok := core.Unparen(e).(*ast.SelectorExpr)
-				if !ok || s.Sel.Name != "Type" {
-					return false
-				}
-				id, ok := core.Unparen(s.X).(*ast.Ident)
-				return ok && info.ObjectOf(id) == tokObj
-			}
-			var eqLine func(c ast.Expr) bool
-			eqLine = func(c ast.Expr) bool {
-				b, ok := core.Unparen(c).(*ast.BinaryExpr)
-				if !ok {
-					return false
-				}
-				if b.Op == token.LAND {
-					return eqLine(b.X) || eqLine(b.Y)
-				}
-				return b.Op == token.EQL && ((isTokType(b.X) && isLine(b.Y)) || (isTokType(b.Y) && isLine(b.X)))
-			}
-			// the token's definition
-			def := soleDefinition(info, identOf(info, fd, tokObj))
-			fromPopType := false
-			if c, ok := def.(*ast.CallExpr); ok && len(c.Args) == 1 && strings.HasSuffix(core.CalleeName(info, c), "popType") && isLine(c.Args[0]) {
-				fromPopType = true
-			}
-			how := ""
-			if fromPopType {
-				how = "token from popType(COMMENT)"
-			}
-			for i := len(stack) - 2; i >= 0 && how == ""; i-- {
-				switch x := stack[i].(type) {
-				case *ast.IfStmt:
-					// literal inside the body (not the else)
-					if x.Body.Pos() <= cl.Pos() && cl.End() <= x.Body.End() && eqLine(x.Cond) {
-						// the token is not reassigned between the test and the literal
-						reassigned := false
-						ast.Inspect(x.Body, func(m ast.Node) bool {
-							if as, ok := m.(*ast.AssignStmt); ok && as.Pos() < cl.Pos() {
-								for _, l := range as.Lhs {
-									if id, ok := l.(*ast.Ident); ok && info.ObjectOf(id) == tokObj {
-										reassigned = true
-									}
-								}
-							}
-							return true
-						})
-						if !reassigned {
-							how = "inside `if <token>.Type == COMMENT`"
-						}
-					}
-				case *ast.CaseClause:
-					sw := enclosingSwitch(stack[:i])
-					if sw == nil || sw.Tag == nil {
-						continue
-					}
-					tagOK := isTokType(sw.Tag)
-					if !tagOK {
-						// switch over the type of the next token; the token is the first one popped in the clause
-						if c, ok := core.Unparen(sw.Tag).(*ast.CallExpr); ok && strings.HasSuffix(core.TypeStr(info.TypeOf(c)), "parser.TokenType") && len(c.Args) == 0 {
-							if firstPopIn(info, x, tokObj) {
-								tagOK = true
+	sel, ok := core.Unparen(val).(*ast.SelectorExpr)
+	var tokObj types.Object
+	if ok && sel.Sel.Name == "Lit" {
+		if id, ok := core.Unparen(sel.X).(*ast.Ident); ok {
+			tokObj = info.ObjectOf(id)
+		}
+	}
+	if tokObj == nil {
+		return "", "the text is not the Lit of a token variable: its kind cannot be established"
+	}
+	isTokType := func(e ast.Expr) bool {
+		s, ok := core.Unparen(e).(*ast.SelectorExpr)
+		if !ok || s.Sel.Name != "Type" {
+			return false
+		}
+		id, ok := core.Unparen(s.X).(*ast.Ident)
+		return ok && info.ObjectOf(id) == tokObj
+	}
+	var eqLine func(c ast.Expr) bool
+	eqLine = func(c ast.Expr) bool {
+		b, ok := core.Unparen(c).(*ast.BinaryExpr)
+		if !ok {
+			return false
+		}
+		if b.Op == token.LAND {
+			return eqLine(b.X) || eqLine(b.Y)
+		}
+		return b.Op == token.EQL && ((isTokType(b.X) && isLine(b.Y)) || (isTokType(b.Y) && isLine(b.X)))
+	}
+	// the token's definition
+	def := soleDefinition(info, identOf(info, fd, tokObj))
+	fromPopType := false
+	if c, ok := def.(*ast.CallExpr); ok && len(c.Args) == 1 && strings.HasSuffix(core.CalleeName(info, c), "popType") && isLine(c.Args[0]) {
+		fromPopType = true
+	}
+	how := ""
+	if fromPopType {
+		how = "token from popType(COMMENT)"
+	}
+	for i := len(stack) - 2; i >= 0 && how == ""; i-- {
+		switch x := stack[i].(type) {
+		case *ast.IfStmt:
+			// literal inside the body (not the else)
+			if x.Body.Pos() <= cl.Pos() && cl.End() <= x.Body.End() && eqLine(x.Cond) {
+				// the token is not reassigned between the test and the literal
+				reassigned := false
+				ast.Inspect(x.Body, func(m ast.Node) bool {
+					if as, ok := m.(*ast.AssignStmt); ok && as.Pos() < cl.Pos() {
+						for _, l := range as.Lhs {
+							if id, ok := l.(*ast.Ident); ok && info.ObjectOf(id) == tokObj {
+								reassigned = true
 							}
 						}
 					}
-					if tagOK && onlyLine(x.List) {
-						how = "inside `case COMMENT:`"
+					return true
+				})
+				if !reassigned {
+					how = "inside `if <token>.Type == COMMENT`"
+				}
+			}
+		case *ast.CaseClause:
+			sw := enclosingSwitch(stack[:i])
+			if sw == nil || sw.Tag == nil {
+				continue
+			}
+			tagOK := isTokType(sw.Tag)
+			if !tagOK {
+				// switch over the type of the next token; the token is the first one popped in the clause
+				if c, ok := core.Unparen(sw.Tag).(*ast.CallExpr); ok && strings.HasSuffix(core.TypeStr(info.TypeOf(c)), "parser.TokenType") && len(c.Args) == 0 {
+					if firstPopIn(info, x, tokObj) {
+						tagOK = true
 					}
 				}
 			}
+			if tagOK && onlyLine(x.List) {
+				how = "inside `case COMMENT:`"
+			}
+		}
+	}
 	return how, ""
 }
